@@ -40,10 +40,20 @@ type scriptedReader struct {
 	chunks [][]byte
 	final  error
 	reads  int
+	idle   chan struct{} // non-nil: signal that every chunk has been processed, then block
+	resume chan struct{}
 }
+
+var errIdleInput = fmt.Errorf("harness: input went away")
 
 func (s *scriptedReader) Read(p []byte) (int, error) {
 	if len(s.chunks) == 0 {
+		if s.idle != nil {
+			// an idle terminal: the reader asks for more, nothing comes
+			close(s.idle)
+			<-s.resume
+			return 0, errIdleInput
+		}
 		return 0, s.final
 	}
 	c := s.chunks[0]
@@ -55,11 +65,17 @@ func (s *scriptedReader) Read(p []byte) (int, error) {
 	return copy(p, c), nil
 }
 
-// implReader runs the real readAnsiInputs on the chunk list followed by EOF.
-func implReader(chunks [][]byte) (msgs []string, status string) {
+// implReader runs the real readAnsiInputs on the chunk list followed by EOF
+// (eof) or by an input that stays open and silent until the reader fails
+// with an unrelated error.
+func implReader(chunks [][]byte, eof bool) (msgs []string, status string) {
 	cp := make([][]byte, len(chunks))
 	copy(cp, chunks)
 	rd := &scriptedReader{chunks: cp, final: io.EOF}
+	if !eof {
+		rd.idle = make(chan struct{})
+		rd.resume = make(chan struct{})
+	}
 	ch := make(chan tea.Msg)
 	done := make(chan string, 1)
 	ctx, cancel := context.WithCancel(context.Background())
@@ -78,8 +94,12 @@ func implReader(chunks [][]byte) (msgs []string, status string) {
 		}
 	}()
 	timeout := time.After(10 * time.Second)
+	idle := rd.idle
 	for {
 		select {
+		case <-idle:
+			idle = nil
+			close(rd.resume) // everything delivered so far is all there will be
 		case m := <-ch:
 			d := tea.VerifDescribeMsg(m)
 			if strings.HasPrefix(d, "unknowncsi ") {
@@ -97,16 +117,20 @@ func implReader(chunks [][]byte) (msgs []string, status string) {
 	}
 }
 
-func readerLine(chunks [][]byte) string {
-	parts := make([]string, len(chunks))
+func readerLine(chunks [][]byte, eof bool) string {
+	parts := make([]string, len(chunks)+1)
+	parts[0] = "I" // the input stays open (idle terminal)
+	if eof {
+		parts[0] = "E" // end of input follows
+	}
 	for i, c := range chunks {
-		parts[i] = hexOf(c)
+		parts[i+1] = hexOf(c)
 	}
 	return strings.Join(parts, " ")
 }
 
-func implReaderLine(chunks [][]byte) (string, []string, string) {
-	msgs, st := implReader(chunks)
+func implReaderLine(chunks [][]byte, eof bool) (string, []string, string) {
+	msgs, st := implReader(chunks, eof)
 	if st != "ok" {
 		return st, msgs, st
 	}
@@ -343,17 +367,41 @@ func streamDetect(c *corrOut, g *inputGen, r *rng, n int, thorough bool) {
 // checkExpect runs the real reader on chunks and compares with the expected
 // message list; a mismatch is a property failure observed on the implementation.
 func (g *inputGen) checkExpect(c *corrOut, prop, what string, chunks [][]byte, want []string) {
-	line, _, _ := implReaderLine(chunks)
-	c.emit(readerLine(chunks), line, "structured:"+what)
 	for i, w := range want {
 		if strings.HasPrefix(w, "unknowncsi ") {
 			want[i] = fmt.Sprintf("unknowncsi len=%d", strings.Count(w, ",")+1)
 		}
 	}
 	exp := strings.Join(want, " | ")
-	if line != exp {
-		c.addFinding(finding{Property: prop, Class: "new", What: what, Input: readerLine(chunks), Expected: exp, Observed: line})
+	for _, eof := range []bool{true, false} {
+		if !eof && len(chunks) > 0 && len(chunks[len(chunks)-1]) == 256 {
+			continue // a full last read legitimately holds an open event back while the input stays open
+		}
+		line, _, _ := implReaderLine(chunks, eof)
+		c.emit(readerLine(chunks, eof), line, "structured:"+what)
+		if line != exp {
+			c.addFinding(finding{Property: prop, Class: "new", What: what, Input: readerLine(chunks, eof), Expected: exp, Observed: line})
+			if runePayload(line) != runePayload(exp) {
+				c.addFinding(finding{Property: "C09", Class: "new", What: "input bytes lost, repeated or never delivered (" + what + ")", Input: readerLine(chunks, eof), Expected: exp, Observed: line})
+			}
+		}
 	}
+}
+
+// runePayload concatenates the rune lists of all key messages of a line: a
+// coarse fingerprint of "which input characters were delivered, in order".
+func runePayload(line string) string {
+	var sb strings.Builder
+	for _, m := range strings.Split(line, " | ") {
+		if i := strings.Index(m, "runes=["); i >= 0 {
+			sb.WriteString(m[i+7 : len(m)-1])
+			sb.WriteByte(',')
+		} else {
+			sb.WriteString(m)
+			sb.WriteByte(',')
+		}
+	}
+	return sb.String()
 }
 
 func streamReader(c *corrOut, g *inputGen, r *rng, n int, thorough bool) {
@@ -377,7 +425,6 @@ func streamReader(c *corrOut, g *inputGen, r *rng, n int, thorough bool) {
 		}
 	}
 	// focus reports alone
-	c.emit("1b5b49", func() string { l, _, _ := implReaderLine([][]byte{[]byte("\x1b[I")}); return l }(), "focus")
 	g.checkExpect(c, "C08", "focus report alone", [][]byte{[]byte("\x1b[I")}, []string{"focus"})
 	g.checkExpect(c, "C08", "blur report alone", [][]byte{[]byte("\x1b[O")}, []string{"blur"})
 	// C15: every kind of event at every alignment against the 256-byte boundary
@@ -454,6 +501,28 @@ func streamReader(c *corrOut, g *inputGen, r *rng, n int, thorough bool) {
 			g.checkExpect(c, "C10", "paste delivered in pieces after the start marker", chunks, expectedOf(evs, kr))
 		}
 	}
+	// C10: short payloads, every division of payload + end marker into up to three reads
+	for _, sz := range []int{0, 3, 13} {
+		pre, post := g.evRunes([]rune{'a'}), g.evRunes([]rune{'x'})
+		p := g.evPaste(g.randPayload(r, sz))
+		evs := []event{pre, p, post}
+		all := concatEvents(evs)
+		head := len(pre.bytes) + 6
+		body := all[head : len(all)-len(post.bytes)]
+		for i := 0; i <= len(body); i++ {
+			for j := i; j <= len(body); j++ {
+				var chunks [][]byte
+				chunks = append(chunks, all[:head])
+				for _, part := range [][]byte{body[:i], body[i:j]} {
+					if len(part) > 0 {
+						chunks = append(chunks, part)
+					}
+				}
+				chunks = append(chunks, append(append([]byte(nil), body[j:]...), post.bytes...))
+				g.checkExpect(c, "C10", "paste delivered in pieces after the start marker", chunks, expectedOf(evs, kr))
+			}
+		}
+	}
 	// random well-formed segments, read whole (short read) or as full reads
 	for c.count < n*6/10 {
 		evs := g.randSegment(r, r.rangeIn(1, 12))
@@ -498,10 +567,11 @@ func streamReader(c *corrOut, g *inputGen, r *rng, n int, thorough bool) {
 		if r.chance(1, 10) {
 			chunks = append(chunks, nil) // a Read that returns 0, nil
 		}
-		line, _, st := implReaderLine(chunks)
-		c.emit(readerLine(chunks), line, "random")
+		eof := r.chance(1, 2)
+		line, _, st := implReaderLine(chunks, eof)
+		c.emit(readerLine(chunks, eof), line, "random")
 		if st != "ok" {
-			c.addFinding(finding{Property: "C09", Class: "new", What: "reader " + st, Input: readerLine(chunks), Observed: line})
+			c.addFinding(finding{Property: "C09", Class: "new", What: "reader " + st, Input: readerLine(chunks, eof), Observed: line})
 		}
 	}
 }
